@@ -33,6 +33,7 @@ type ReplayFile struct {
 	BaseSeed uint64   `json:"verif_seed"`
 	RunIndex int      `json:"run_index"`
 	Tape     []uint32 `json:"tape"`
+	FromSeed bool     `json:"from_seed,omitempty"` // no tape: the run is re-executed from its seed (it kills the process)
 	// PrefixRuns: run indices to execute (in search mode, same process) before the
 	// tape. Only used when the violation depends on state the code under test
 	// keeps process-wide, left behind by earlier runs of the same worker.
@@ -597,6 +598,39 @@ func replayMain(engines map[string]Engine, propEngine map[string]string, o *Opti
 	Thorough = rf.Tier == "thorough"
 	known, _ := loadKnown(o.KnownPath, rf.Property)
 
+	if rf.FromSeed && os.Getenv("VERIF_FATAL_CHILD") == "" {
+		cmd := exec.Command(os.Args[0], os.Args[1:]...)
+		cmd.Env = append(os.Environ(), "VERIF_FATAL_CHILD=1")
+		b, err := cmd.CombinedOutput()
+
+		if err != nil && isLibraryFatal(string(b)) {
+			if !o.Verify {
+				fmt.Printf("%s\n", clipTail(string(b), 3000))
+			}
+
+			fmt.Printf("reproduced: the run kills the process: %s\n", fatalLine(string(b)))
+			fmt.Printf("VIOLATION property=%s replay=%s\n", rf.Property, o.Replay)
+
+			return ExitViol
+		}
+
+		if o.Verify {
+			fmt.Printf("REPLAY-DIVERGED property=%s: the recorded run no longer kills the process\n", rf.Property)
+			return ExitHarness
+		}
+
+		fmt.Printf("REPLAY-CLEAN property=%s: the recorded run (%s) does not kill the process on this tree\n", rf.Property, rf.Signature)
+
+		return ExitOK
+	}
+
+	if rf.FromSeed {
+		st := NewStats(known)
+		RunOne(eng, rf.Property, NewTape(rf.Seed), st)
+
+		return ExitOK
+	}
+
 	if len(rf.PrefixRuns) > 0 {
 		// recreate the process-wide state the failing run started from
 		pst := NewStats(known)
@@ -745,8 +779,9 @@ func parentMain(eng Engine, o *Options) int {
 	agg := NewStats(nil)
 
 	var (
-		viols  []*ReplayFile
-		capped bool
+		viols     []*ReplayFile
+		capped    bool
+		fatalLogs []fatalWorker
 	)
 
 	deadline := start.Add(time.Duration(o.CapSec) * time.Second)
@@ -768,6 +803,16 @@ func parentMain(eng Engine, o *Options) int {
 
 			if len(tail) > 6000 {
 				tail = tail[len(tail)-6000:]
+			}
+
+			// A fatal runtime error raised with library code on the stack (out of memory,
+			// stack overflow, concurrent map access) cannot be recovered by the worker; it
+			// is a failure of the code under test, not of the harness.
+			if full := p.log.String(); p != nil && isLibraryFatal(full) {
+				fatalLogs = append(fatalLogs, fatalWorker{index: w, log: full})
+				stopLaunch.Store(true)
+
+				continue
 			}
 
 			fmt.Fprintf(os.Stderr, "%s\n", tail)
@@ -796,6 +841,16 @@ func parentMain(eng Engine, o *Options) int {
 
 		if time.Now().After(deadline) {
 			stopLaunch.Store(true)
+		}
+	}
+
+	// a worker killed by a fatal error in library code: find the run that does it
+	if len(viols) == 0 && len(fatalLogs) > 0 {
+		if rf := locateFatal(eng, o, tmp, virtual, total, fatalLogs[0]); rf != nil {
+			viols = append(viols, rf)
+		} else {
+			fmt.Fprintf(os.Stderr, "%s\n", clipTail(fatalLogs[0].log, 6000))
+			harness("worker %d died with a fatal error that could not be pinned to one run", fatalLogs[0].index)
 		}
 	}
 
@@ -973,8 +1028,12 @@ func parentMain(eng Engine, o *Options) int {
 		code = ExitViol
 	}
 
-	if agg.Runs == 0 {
+	if agg.Runs == 0 && code != ExitViol {
 		harness("no run was executed")
+	}
+
+	if agg.Runs == 0 {
+		agg.Runs = 1 // the run that killed its worker
 	}
 
 	if o.Evidence != "" {
@@ -989,6 +1048,84 @@ func parentMain(eng Engine, o *Options) int {
 }
 
 var errSkipped = fmt.Errorf("not started")
+
+type fatalWorker struct {
+	index int
+	log   string
+}
+
+func clipTail(s string, n int) string {
+	if len(s) > n {
+		return s[len(s)-n:]
+	}
+
+	return s
+}
+
+// isLibraryFatal: the process died of a Go runtime fatal error and the dump shows
+// a frame of the package under test.
+func isLibraryFatal(log string) bool {
+	fatal := strings.Contains(log, "fatal error:") || strings.Contains(log, "runtime: goroutine stack exceeds") || strings.Contains(log, "runtime: out of memory")
+
+	return fatal && strings.Contains(log, pkgPrefix)
+}
+
+func fatalLine(log string) string {
+	for _, l := range strings.Split(log, "\n") {
+		if strings.HasPrefix(l, "fatal error:") || strings.HasPrefix(l, "runtime: out of memory") || strings.HasPrefix(l, "runtime: goroutine stack exceeds") {
+			return strings.TrimSpace(l)
+		}
+	}
+
+	return "fatal error"
+}
+
+// locateFatal finds, by bisection over the number of runs, the run of a worker
+// that kills the process, and returns a replay file for it (the run is re-executed
+// from its seed: there is no tape to shrink when the process dies).
+func locateFatal(eng Engine, o *Options, tmp string, virtual, total int, fw fatalWorker) *ReplayFile {
+	dies := func(limit int) (bool, string) {
+		out := filepath.Join(tmp, fmt.Sprintf("bisect-%d.json", limit))
+		cmd := exec.Command(os.Args[0], "-worker", "-property", o.Property, "-tier", o.Tier, "-seed", fmt.Sprint(int64(o.Seed)),
+			"-workers", fmt.Sprint(virtual), "-index", fmt.Sprint(fw.index), "-out", out, "-known", o.KnownPath, "-cap", "600", "-runs", fmt.Sprint(limit))
+		cmd.Env = append(os.Environ(), WorkerEnv(eng, tmp, 5000+limit%1000)...)
+		b, err := cmd.CombinedOutput()
+		os.Remove(out)
+
+		return err != nil && isLibraryFatal(string(b)), string(b)
+	}
+
+	lo, hi := fw.index, total // runs with index < lo are fine; the worker dies when it may run indexes < hi
+	if d, _ := dies(hi); !d {
+		return nil
+	}
+
+	for hi-lo > virtual {
+		mid := lo + (hi-lo)/2
+		if d, _ := dies(mid); d {
+			hi = mid
+		} else {
+			lo = mid
+		}
+	}
+
+	// the worker's last index below hi
+	idx := fw.index
+	for idx+virtual < hi {
+		idx += virtual
+	}
+
+	_, log := dies(idx + 1)
+	line := fatalLine(log)
+
+	return &ReplayFile{
+		Property: o.Property, Tier: o.Tier, Engine: eng.Name(), TreeHash: o.TreeHash,
+		Seed: RunSeed(o.Seed, o.Property, idx), BaseSeed: o.Seed, RunIndex: idx, FromSeed: true,
+		Signature: o.Property + "|no-fatal-error|runtime|" + line,
+		Message:   "the process is killed by a Go runtime fatal error with library code on the stack (it cannot be recovered like a panic): " + line + "\n" + clipTail(log, 3000),
+		EventHash: "not-comparable", Trace: []string{"(the run is re-executed from its seed; it kills the process)"},
+	}
+}
 
 // WorkerEnv lets an engine add environment variables for its workers (E7 sets GORACE).
 func WorkerEnv(eng Engine, tmp string, index int) []string {
